@@ -160,6 +160,11 @@ fn vvec_matches_vec_and_sort_is_stable() {
         b.sort_by_key(|x| x.0);
         assert_eq!(a.iter().copied().collect::<Vec<_>>(), b);
         assert_eq!(a.len(), b.len());
+        let keep = rng.below(3);
+        a.retain(|x| x.0 != keep);
+        b.retain(|x| x.0 != keep);
+        assert_eq!(a.iter().copied().collect::<Vec<_>>(), b);
+        assert_eq!(a.len(), b.len());
         assert_eq!(a.into_iter().collect::<Vec<_>>(), b);
     }
 }
